@@ -102,6 +102,10 @@ class ShadowError(Exception):
     pass
 
 
+class _EpochChanged(Exception):
+    pass
+
+
 class World:
     """real entity classes for a schema on a file database + the description the shadow / expansion need"""
     def __init__(self, schema, tag='w'):
@@ -377,6 +381,10 @@ class Shadow:
 
 # ---------------------------------------------------------------- one history on the real code
 
+# exceptions with which a flush (explicit or implicit) fails loudly: the program cannot go on, the session ends with an error
+FLUSH_ERRORS = {'UnresolvableCyclicDependency', 'TransactionIntegrityError', 'IntegrityError', 'OptimisticCheckError', 'UnexpectedError',
+                'CommitException', 'ConstraintError:required'}
+
 MODEL_STATUS = {'created', 'loaded', 'modified', 'inserted', 'updated', 'marked_to_delete', 'deleted', 'cancelled'}
 
 
@@ -468,7 +476,13 @@ class Run:
         try: obj = cls[o['pk']]
         except ObjectNotFound: obj = None
         except Exception as e:
-            self.session_error('E[pk]', e); return None
+            name = type(e).__name__
+            if name in FLUSH_ERRORS:
+                self.count('read-ended-session:getitem:' + name)
+                self.after_abort('error:' + name); self.model_abandon('read ended the session')
+            else:
+                self.finding('C10', 'getitem:raised:' + name, 'E[pk] of an object the program has raised', observed=name, expected='object')
+            return None
         self.note_load(o['ent'], o['pk'], obj is not None, had)
         exp = o['alive']
         if (obj is not None) != exp:
@@ -805,6 +819,7 @@ class Run:
         self.ops.append(op)
         before = self.sh.clone()
         mark = self.mark()
+        c0 = self.cache()
         try: err = self.real_call(op)
         except Exception as e:
             err = type(e).__name__
@@ -812,9 +827,8 @@ class Run:
         self.count('op:%s:%s' % (k, err or 'ok'))
         if self.stop: return
         if err == 'skipped': return
-        c = self.cache()
-        if c is None or not c.is_alive:
-            # the call ended the session (a database error inside an implicit flush): nothing after the last commit may be visible
+        if (c0 is not None and not c0.is_alive) or err in FLUSH_ERRORS:
+            # an implicit flush inside the call (re-fetching an operand) failed loudly: the program ends the session with the error
             self.count('call-ended-session:%s:%s' % (k, err))
             self.after_abort('error:' + str(err)); self.model_abandon('call ended the session')
             return
@@ -892,13 +906,16 @@ class Run:
         if not self.in_session: self.enter()
         if self.do_reads and not self.stop: self.reads()
 
+    epoch = 0
     def after_abort(self, why):
         if self.in_session:
             try: self.leave(True)
             except Exception: pass
         self.sh = self.committed.clone()
         self.h = {}; self.prev_index = set()
+        self.epoch += 1
         self.check_db(why)
+        if not self.stop: self.enter()
 
     def check_db(self, event):
         """C09 oracle: the database file as a second connection sees it == the shadow's committed state"""
@@ -932,12 +949,14 @@ class Run:
                                     observed=sorted(map(repr, got['links'][i])), expected=sorted(map(repr, exp['links'][i])))
 
     # ---------- the C10 oracle: every read form against the shadow
-    def rd(self, form, ctxkey, fn, expected, norm=None):
+    def rd(self, form, ctxkey, fn, expected, norm=None, params=()):
         """evaluate one read on the real session; compare with the shadow's answer"""
         if self.stop: return
         c = self.cache()
+        c0 = c
         mod = bool(c is not None and c.is_alive and c.modified)
         mark = self.mark()
+        new_param = any(p is not None and p._pkval_ is None for p in params)
         try:
             got = fn()
             if norm: got = norm(got)
@@ -946,9 +965,8 @@ class Run:
         except Exception as e:
             got = 'raised:' + type(e).__name__
         self.count('read:' + form)
-        c = self.cache()
-        if c is None or not c.is_alive:
-            # the read ran an implicit flush that the database refused: the session is over
+        if (c0 is not None and not c0.is_alive) or (mod and isinstance(got, str) and got.startswith('raised:') and got[7:] in FLUSH_ERRORS):
+            # the read ran an implicit flush that failed loudly: the program ends the session with the error
             self.count('read-ended-session:%s:%s' % (form, got))
             self.after_abort('error:' + str(got)); self.model_abandon('read ended the session')
             return
@@ -959,28 +977,44 @@ class Run:
             self.sync_seeds()
         self.learn_pks()
         if got != expected:
-            self.finding('C10', '%s:%s' % (form, ctxkey), 'a read inside the session does not reflect what the session did',
+            key = '%s:%s' % (form, ctxkey)
+            if new_param: key = 'unflushed-object-as-query-parameter:' + form
+            self.finding('C10', key, 'a read inside the session does not reflect what the session did',
                          observed={'form': form, 'got': got}, expected=expected)
 
     def reads(self):
+        ep = self.epoch
+        try: self.reads_(ep)
+        except _EpochChanged: pass
+
+    def reads_(self, ep):
         rng = self.rrng; w = self.w; sh = self.sh
         if self.stop: return
+        rd0 = self.rd
+        def rd(*a, **kw):
+            rd0(*a, **kw)
+            if self.epoch != ep: raise _EpochChanged()
+        self_rd = rd
+        def rs(x):
+            r = self.resolve(x)
+            if self.epoch != ep: raise _EpochChanged()
+            return r
         live = self.usable()
         sample = rng.sample(live, min(len(live), 3)) if live else []
         # --- attribute access and collection forms
         for oid in sample:
             if self.stop: return
-            obj = self.resolve(oid)
+            obj = rs(oid)
             if obj is None or self.stop: continue
             o = sh.objs[oid]; e = o['ent']
             for s in w.schema['ents'][e]['scalars']:
-                if rng.random() < 0.5: self.rd('attr', 'scalar', lambda: getattr(obj, s['name']), o['vals'][s['name']])
+                if rng.random() < 0.5: self_rd('attr', 'scalar', lambda: getattr(obj, s['name']), o['vals'][s['name']])
             for key in w.ent_rel[e]:
                 side = w.sides[key]; name = side['name']; kind = w.relkind(key)
                 if self.stop: return
                 if not side['coll']:
                     if rng.random() < 0.6:
-                        self.rd('attr', kind, lambda: self.oid_of(getattr(obj, name)), o['vals'][name])
+                        self_rd('attr', kind, lambda: self.oid_of(getattr(obj, name)), o['vals'][name])
                     continue
                 exp = sorted(sh.partners(oid, key))
                 hist = self.coll_hist.get((oid, key), [])
@@ -990,19 +1024,19 @@ class Run:
                 for f in forms[:rng.choice([2, 3, 4, 8])]:
                     if self.stop: return
                     coll = getattr(obj, name)
-                    if f == 'iter': self.rd('coll-iter', ck, lambda: sorted(self.oid_of(x) for x in coll), exp)
-                    elif f == 'len': self.rd('coll-len', ck, lambda: len(coll), len(exp))
-                    elif f == 'count': self.rd('coll-count', ck, lambda: coll.count(), len(exp))
-                    elif f == 'is_empty': self.rd('coll-is_empty', ck, lambda: coll.is_empty(), not exp)
-                    elif f == 'bool': self.rd('coll-bool', ck, lambda: bool(coll), bool(exp))
-                    elif f == 'select': self.rd('coll-select', ck, lambda: sorted(self.oid_of(x) for x in coll.select()[:]), exp)
+                    if f == 'iter': self_rd('coll-iter', ck, lambda: sorted(self.oid_of(x) for x in coll), exp)
+                    elif f == 'len': self_rd('coll-len', ck, lambda: len(coll), len(exp))
+                    elif f == 'count': self_rd('coll-count', ck, lambda: coll.count(), len(exp))
+                    elif f == 'is_empty': self_rd('coll-is_empty', ck, lambda: coll.is_empty(), not exp)
+                    elif f == 'bool': self_rd('coll-bool', ck, lambda: bool(coll), bool(exp))
+                    elif f == 'select': self_rd('coll-select', ck, lambda: sorted(self.oid_of(x) for x in coll.select()[:]), exp, params=[obj])
                     else:
                         te = w.sides[w.rev(key)]['ent']
                         cands = [x for x in self.usable(te) if (x in exp) == (f == 'contains')]
                         if cands:
-                            x = rng.choice(cands); xo = self.resolve(x)
+                            x = rng.choice(cands); xo = rs(x)
                             if xo is not None and not self.stop:
-                                self.rd('coll-in', ck, lambda: xo in coll, f == 'contains')
+                                self_rd('coll-in', ck, lambda: xo in coll, f == 'contains')
         if self.stop: return
         # --- lookups by key and by keyword
         for _ in range(rng.choice([1, 2, 3])):
@@ -1018,66 +1052,67 @@ class Run:
                 match = [oid for oid in liv if sh.objs[oid]['pk'] == pk]
                 had = self.real_indexed()
                 if form == 'getitem':
-                    self.rd('getitem', ed['pk'], lambda: self.oid_of(cls[pk]), match[0] if match else 'ObjectNotFound')
+                    self_rd('getitem', ed['pk'], lambda: self.oid_of(cls[pk]), match[0] if match else 'ObjectNotFound')
                 else:
                     kw = {'id': pk} if ed['pk'] != 'composite' else {'p1': pk[0], 'p2': pk[1]}
-                    self.rd('get-pk', ed['pk'], lambda: self.oid_of(cls.get(**kw)), match[0] if match else None)
+                    self_rd('get-pk', ed['pk'], lambda: self.oid_of(cls.get(**kw)), match[0] if match else None)
                 continue
             if form in ('get_kw', 'exists_kw', 'select_kw', 'select_gen', 'select_lambda'):
                 s = rng.choice(ed['scalars']); v = rng.choice([0, 1, 2, 3])
                 match = sorted(oid for oid in liv if sh.objs[oid]['vals'][s['name']] == v)
                 n = s['name']
                 if form == 'get_kw':
-                    self.rd('get-kw', 'scalar', lambda: self.oid_of(cls.get(**{n: v})),
+                    self_rd('get-kw', 'scalar', lambda: self.oid_of(cls.get(**{n: v})),
                             'MultipleObjectsFoundError' if len(match) > 1 else (match[0] if match else None))
-                elif form == 'exists_kw': self.rd('exists-kw', 'scalar', lambda: cls.exists(**{n: v}), bool(match))
-                elif form == 'select_kw': self.rd('select-kw', 'scalar', lambda: sorted(self.oid_of(x) for x in cls.select(**{n: v})[:]), match)
-                elif form == 'select_gen': self.rd('select-gen', 'scalar', lambda: sorted(self.oid_of(x) for x in select(x for x in cls if getattr(x, n) == v)[:]), match)
-                else: self.rd('select-lambda', 'scalar', lambda: sorted(self.oid_of(x) for x in cls.select(lambda x: getattr(x, n) == v)[:]), match)
+                elif form == 'exists_kw': self_rd('exists-kw', 'scalar', lambda: cls.exists(**{n: v}), bool(match))
+                elif form == 'select_kw': self_rd('select-kw', 'scalar', lambda: sorted(self.oid_of(x) for x in cls.select(**{n: v})[:]), match)
+                elif form == 'select_gen': self_rd('select-gen', 'scalar', lambda: sorted(self.oid_of(x) for x in select(x for x in cls if getattr(x, n) == v)[:]), match)
+                else: self_rd('select-lambda', 'scalar', lambda: sorted(self.oid_of(x) for x in cls.select(lambda x: getattr(x, n) == v)[:]), match)
                 continue
             if form == 'get_unique':
                 if not any(s['unique'] for s in ed['scalars']): continue
                 v = rng.choice([0, 1, 2, 3, 4, 5])
                 match = sorted(oid for oid in liv if sh.objs[oid]['vals']['u0'] == v)
                 if len(match) > 1: continue
-                self.rd('get-unique', 'unique', lambda: self.oid_of(cls.get(u0=v)), match[0] if match else None)
+                self_rd('get-unique', 'unique', lambda: self.oid_of(cls.get(u0=v)), match[0] if match else None)
                 continue
             if form == 'get_ckey':
                 if not ed['ckey']: continue
                 v0, v1 = rng.choice([0, 1, 2, 3]), rng.choice([0, 1, 2, 3])
                 match = sorted(oid for oid in liv if sh.objs[oid]['vals']['c0'] == v0 and sh.objs[oid]['vals']['c1'] == v1)
                 if len(match) > 1: continue
-                self.rd('get-composite-key', 'ckey', lambda: self.oid_of(cls.get(c0=v0, c1=v1)), match[0] if match else None)
+                self_rd('get-composite-key', 'ckey', lambda: self.oid_of(cls.get(c0=v0, c1=v1)), match[0] if match else None)
                 continue
             if form == 'get_rel':
-                keys = [k for k in w.ent_rel[e] if not w.sides[k]['coll']]
+                keys = [k for k in w.ent_rel[e] if not w.sides[k]['coll'] and w.sides[k]['has_col']]   # a side without a column: NotImplementedError
                 if not keys: continue
                 key = rng.choice(keys); name = w.sides[key]['name']
                 tg = self.usable(w.sides[w.rev(key)]['ent'])
                 if not tg: continue
-                x = rng.choice(tg); xo = self.resolve(x)
+                x = rng.choice(tg); xo = rs(x)
                 if xo is None or self.stop: continue
                 match = sorted(oid for oid in liv if sh.objs[oid]['vals'][name] == x)
-                self.rd('get-rel', w.relkind(key), lambda: self.oid_of(cls.get(**{name: xo})),
-                        'MultipleObjectsFoundError' if len(match) > 1 else (match[0] if match else None))
+                self_rd('get-rel', w.relkind(key), lambda: self.oid_of(cls.get(**{name: xo})),
+                        'MultipleObjectsFoundError' if len(match) > 1 else (match[0] if match else None), params=[xo])
                 continue
             if form == 'select_all':
-                self.rd('select-all', 'entity', lambda: sorted(self.oid_of(x) for x in cls.select()[:]), sorted(liv)); continue
+                self_rd('select-all', 'entity', lambda: sorted(self.oid_of(x) for x in cls.select()[:]), sorted(liv)); continue
             vals = [sh.objs[oid]['vals']['s0'] for oid in liv if sh.objs[oid]['vals']['s0'] is not None]
-            if form == 'count': self.rd('agg-count', 'entity', lambda: count(x for x in cls), len(liv))
-            elif form == 'sum': self.rd('agg-sum', 'scalar', lambda: psum(x.s0 for x in cls), sum(vals))
-            elif form == 'max': self.rd('agg-max', 'scalar', lambda: pmax(x.s0 for x in cls), max(vals) if vals else None)
-            elif form == 'min': self.rd('agg-min', 'scalar', lambda: pmin(x.s0 for x in cls), min(vals) if vals else None)
+            if form == 'count': self_rd('agg-count', 'entity', lambda: count(x for x in cls), len(liv))
+            elif form == 'sum': self_rd('agg-sum', 'scalar', lambda: psum(x.s0 for x in cls), sum(vals))
+            elif form == 'max': self_rd('agg-max', 'scalar', lambda: pmax(x.s0 for x in cls), max(vals) if vals else None)
+            elif form == 'min': self_rd('agg-min', 'scalar', lambda: pmin(x.s0 for x in cls), min(vals) if vals else None)
             elif form in ('to_dict', 'to_dict_coll') and liv:
                 us = [x for x in liv if x in self.usable(e)]
                 if not us: continue
-                oid = rng.choice(us); obj = self.resolve(oid)
+                oid = rng.choice(us); obj = rs(oid)
                 if obj is None or self.stop: continue
                 withc = form == 'to_dict_coll'
+                collnames = {w.sides[k3]['name'] for k3 in w.ent_rel[e] if w.sides[k3]['coll']}
                 def norm(d):
                     out = {}
                     for k2, v2 in d.items():
-                        out[k2] = sorted(map(repr, v2)) if isinstance(v2, (list, set, tuple)) and k2.startswith('r') else v2
+                        out[k2] = sorted(map(repr, v2)) if k2 in collnames else v2
                     return out
                 def expd():
                     o = sh.objs[oid]; d = {}
@@ -1099,7 +1134,7 @@ class Run:
                     holder['d'] = norm(obj.to_dict(with_collections=withc))
                     self.learn_pks()
                     return holder['d'] == expd()
-                self.rd('to_dict' + ('-collections' if withc else ''), 'object', call, True)
+                self_rd('to_dict' + ('-collections' if withc else ''), 'object', call, True)
                 if self.findings and self.findings[-1]['key'].startswith('to_dict') and 'd' in holder:
                     self.findings[-1]['observed'] = holder['d']; self.findings[-1]['expected'] = expd()
 
